@@ -2,7 +2,8 @@
    preference, lower component first), and determines the three of them -- for every type
    preference 0..126, local preference 0..65535 and component 1..256 (generated Priority). *)
 From Coq Require Import ZArith Bool Lia.
-From Ice Require Import Model.Wrap Model.PrioSpec Gen.Prio Proofs.PrioProofs.
+From Coq Require Import List.
+From Ice Require Import Model.Wrap Model.PrioSpec Model.PrioModel Gen.Prio Proofs.PrioProofs.
 Local Open Scope Z_scope.
 
 Lemma priority_lexicographic tp lp comp tp' lp' comp' :
@@ -31,3 +32,22 @@ Qed.
 Lemma priority_component_zero_carries :
   Priority 0 100 7 0 = Priority 0 100 8 256.
 Proof. vm_compute. reflexivity. Qed.
+
+(* for whole candidates: whatever the local preferences and components (1..256), a candidate with
+   the greater type preference has the greater priority -- the type dominates, for every
+   configuration (TCP offsets included, which is why the comparison is on the computed preference) *)
+Lemma candidate_priority_type_dominates ty nt tcp rp ha off comp ty' nt' tcp' rp' ha' off' comp' :
+  In ty cand_types -> In nt net_types -> In tcp tcp_types -> 0 <= off < 65536 -> 1 <= comp <= 256 ->
+  In ty' cand_types -> In nt' net_types -> In tcp' tcp_types -> 0 <= off' < 65536 -> 1 <= comp' <= 256 ->
+  TypePreference ty nt ha off < TypePreference ty' nt' ha' off' ->
+  candidate_priority ty nt tcp rp ha off comp < candidate_priority ty' nt' tcp' rp' ha' off' comp'.
+Proof.
+  intros Hty Hnt Htcp Hoff Hc Hty' Hnt' Htcp' Hoff' Hc' Hlt.
+  pose proof (type_pref_range ty nt ha off Hty Hnt Hoff) as Htp.
+  pose proof (type_pref_range ty' nt' ha' off' Hty' Hnt' Hoff') as Htp'.
+  pose proof (relay_pref_range rp) as Hrp. pose proof (relay_pref_range rp') as Hrp'.
+  pose proof (local_pref_range ty nt tcp (relayProtocolPreference rp) Hty Hnt Htcp ltac:(lia)) as Hlp.
+  pose proof (local_pref_range ty' nt' tcp' (relayProtocolPreference rp') Hty' Hnt' Htcp' ltac:(lia)) as Hlp'.
+  unfold candidate_priority.
+  apply priority_lexicographic; try assumption. left. exact Hlt.
+Qed.
